@@ -24,6 +24,7 @@ type pconnIn struct {
 	Reply   []int  `json:"reply"`
 	Rchunks []int  `json:"rchunks"`
 	Rcap    int    `json:"rcap"`
+	Stall   bool   `json:"stall"` // the client does not read while the replies are written (needs wb > 0); it reads everything afterwards
 	Alen    int    `json:"alen"` // application's ReadFrom buffer: length and capacity (0: 70000)
 	Acap    int    `json:"acap"`
 	Tag     string `json:"tag"`
@@ -86,8 +87,13 @@ func runPconn(t *testing.T, c pconnIn) (in caseOut, out *caseOut, leak string) {
 			}
 		}()
 		var rx []byte
+		resume := make(chan struct{})
+		if !c.Stall {
+			close(resume)
+		}
 		go func() { // the client reading what the mux sends back
 			b := make([]byte, 1<<17)
+			<-resume
 			for {
 				n, err := cl.Read(b)
 				mu.Lock()
@@ -141,7 +147,7 @@ func runPconn(t *testing.T, c pconnIn) (in caseOut, out *caseOut, leak string) {
 		attached := len(gots) > 0 && gots[0].err == nil // the first frame was accepted: the mux knows this connection
 		mu.Unlock()
 		if len(c.Reply) > 0 && attached && !sv.closedByServer() {
-			o := caseOut{ID: c.ID, Kind: "pconnw", Tag: c.Tag, Pk: c.Reply, Cap: c.Rcap, Wreal: true, Wmax: 65535, Wb: c.Wb, Raw: []int{}}
+			o := caseOut{ID: c.ID, Kind: "pconnw", Tag: c.Tag, Pk: c.Reply, Cap: c.Rcap, Wreal: true, Wmax: 65535, Wb: c.Wb, Stall: c.Stall, Raw: []int{}}
 			var rpay [][]byte
 			for i, n := range c.Reply {
 				pl := payload(i+1, n)
@@ -179,6 +185,33 @@ func runPconn(t *testing.T, c pconnIn) (in caseOut, out *caseOut, leak string) {
 				o.Wr = append(o.Wr, rec)
 				o.Caps = append(o.Caps, c.Rcap)
 			}
+			if c.Stall {
+				// the peer reads now; the accepted packets must be on the wire as consecutive frames, in the order they were written
+				close(resume)
+				synctest.Wait()
+				mu.Lock()
+				all := append([]byte{}, rx...)
+				mu.Unlock()
+				off := 0
+				for i := range o.Wr {
+					w := &o.Wr[i]
+					w.S, w.Hdr, w.Wrote = off, -1, 0
+					if !w.OK {
+						continue
+					}
+					want := len(rpay[i])
+					if off+2 <= len(all) {
+						w.Hdr = int(all[off])<<8 | int(all[off+1])
+					}
+					body := all[min(off+2, len(all)):min(off+2+want, len(all))]
+					w.Blen, w.Same = len(body), string(body) == string(rpay[i])
+					w.Wrote = min(2+want, len(all)-off)
+					off += w.Wrote
+				}
+				if off < len(all) { // bytes that belong to no accepted packet
+					o.Note = "unaccounted bytes on the wire"
+				}
+			}
 			mu.Lock()
 			wire := append([]byte{}, rx...)
 			mu.Unlock()
@@ -193,8 +226,8 @@ func runPconn(t *testing.T, c pconnIn) (in caseOut, out *caseOut, leak string) {
 			o.Slen = len(wire)
 			o.Out, o.Res, _ = readAll(sc, c.Rcap, rpay, len(c.Reply)+len(wire)/2+8, func(map[string]any) {})
 			o.Rd = sc.reads
-			if o.Rd == nil {
-				o.Rd = []rdRec{}
+			if o.Rd == nil || o.Note == "unaccounted bytes on the wire" {
+				o.Rd = []rdRec{} // reads cannot be attributed to frames when the wire holds bytes of no frame; the note carries the verdict
 			}
 			out = &o
 		}
